@@ -17,11 +17,20 @@ def glpk_readback(model) -> Dict[str, Any]:
     """Read the problem held by GLPK itself (not optlang's bookkeeping)."""
     import swiglpk as g
 
-    model.solver.update()
+    try:
+        model.solver.update()
+    except Exception as e:  # noqa: BLE001 - pending changes that cannot be applied: the problem is not well defined
+        raise PropertyViolation("lp-update-raises", f"solver.update() raises {type(e).__name__}: {str(e)[:200]}")
     P = model.solver.problem
     ncol, nrow = g.glp_get_num_cols(P), g.glp_get_num_rows(P)
 
+    DBL_MAX = 1.7976931348623157e308
+
     def bounds(t, lb, ub):
+        # GLPK (and optlang's GLPK text round trip) use +-DBL_MAX for "no bound": every representable flux
+        # satisfies |v| <= DBL_MAX and GLPK itself treats it as infinite, so it is decoded as infinity.
+        lb = -INF if lb <= -DBL_MAX else lb
+        ub = INF if ub >= DBL_MAX else ub
         if t == g.GLP_FR:
             return (-INF, INF)
         if t == g.GLP_LO:
@@ -332,13 +341,7 @@ def audit_solver(model, user_cons_vars: Optional[Dict[str, Any]] = None, where: 
         row = rows.pop(mid)
         if not (row["lb"] == 0 and row["ub"] == 0):
             bad("row-bounds", f"row {mid} has bounds ({row['lb']}, {row['ub']})")
-        want = {k: v for k, v in want.items() if v != 0}
-        got = {k: v for k, v in row["coefs"].items()
-               if not (k in user_cons_vars["vars"] and k in user_cons_vars.get("row_extras", {}).get(mid, {}))}
-        extras = user_cons_vars.get("row_extras", {}).get(mid, {})
-        want_all = dict(want)
-        for k, v in extras.items():
-            want_all[k] = v
+        want_all = {k: v for k, v in want.items() if v != 0}
         if set(row["coefs"]) != set(want_all) or any(not num_eq(row["coefs"][k], want_all[k], 1e-12) for k in want_all):
             bad("stoichiometry", f"row {mid}: solver has {row['coefs']} but stoichiometry gives {want_all}")
     # leftovers must be exactly the user's additions
@@ -358,6 +361,8 @@ def audit_solver(model, user_cons_vars: Optional[Dict[str, Any]] = None, where: 
             bad("user-con", f"user constraint {name}: bounds ({row['lb']},{row['ub']}) vs ({lb},{ub})")
         if set(row["coefs"]) != set(coefs) or any(not num_eq(row["coefs"][k], coefs[k], 1e-12) for k in coefs):
             bad("user-con", f"user constraint {name}: coefs {row['coefs']} vs {coefs}")
+    if user_cons_vars.get("opaque"):
+        cols, rows = {}, {}  # temporary helper content (add_pfba & co) is not tracked item by item
     if cols:
         bad("extra-col", f"solver holds columns that belong to nothing in the model: {sorted(cols)}")
     if rows:
